@@ -85,8 +85,9 @@ ASSUMPTIONS = ['LMTP: the library has no LMTP-receiving edge; the LMTP leg is ju
                'that command returns (recording SmtpSession subclass); for HTTP it is the code of the scripted '
                'QueueError.reply / the default 250',
                'PTR lookups are stubbed (no resolver threads); TLS uses the run\'s self-signed certificate',
-               '7-bit clause with base64: decoded text is compared modulo CRLF/LF (the line-end loss is C20\'s known '
-               'finding encode-7bit/base64/line-ends-differ, not re-reported here)',
+               '7-bit clause: "same text" is compared as the same sequence of lines (CRLF / LF / CR all count as a '
+               'line end), because the conversion re-parses the message with universal newlines; exact line ends '
+               'after conversion are C20\'s known finding encode-7bit/base64/line-ends-differ, not re-reported here',
                'a non-ASCII address offered to a server that does not advertise SMTPUTF8, and 8-bit data offered to '
                'one that does not advertise 8BITMIME, may be refused in any way (error result or exception); only '
                '"arrives altered" and "reported delivered but not received" refute',
@@ -98,7 +99,7 @@ SHARDS = {'quick': 10, 'thorough': 16}
 BUDGET = {'quick': 45, 'thorough': 800}
 EXHAUSTIVE = {'quick': False, 'thorough': False}
 
-NRANDOM = {'quick': 420, 'thorough': 15000}
+NRANDOM = {'quick': 3000, 'thorough': 60000}
 WATCHDOG = 25.0
 
 USER, SECRET = 'relay-user@x.test', 'correct horse'
@@ -468,9 +469,10 @@ SMTP_GRID = [
     ('size-small', smtp_cfg(size=600)),
     ('starttls', smtp_cfg(tls=True)),
     ('starttls-auth-plain', smtp_cfg(tls=True, auth=['PLAIN'])),
-    ('auth-login', smtp_cfg(auth=['LOGIN'])),
-    ('auth-cram', smtp_cfg(auth=['CRAM-MD5', 'PLAIN'], mech='CRAM-MD5')),
-    ('auth-multi-nopipe', smtp_cfg(auth=['PLAIN', 'LOGIN', 'CRAM-MD5'], drop=['PIPELINING'])),
+    ('starttls-auth-login', smtp_cfg(tls=True, auth=['LOGIN'], mech='LOGIN')),
+    ('auth-cram', smtp_cfg(auth=['CRAM-MD5'])),
+    ('auth-cram-forced', smtp_cfg(auth=['CRAM-MD5', 'PLAIN'], mech='CRAM-MD5')),
+    ('starttls-auth-multi-nopipe', smtp_cfg(tls=True, auth=['PLAIN', 'LOGIN', 'CRAM-MD5'], drop=['PIPELINING'])),
     ('helo', smtp_cfg(helo=True)),
     ('reuse', smtp_cfg(reuse=True)),
     ('reuse-concurrent', smtp_cfg(reuse=True, concurrent=True)),
@@ -638,8 +640,12 @@ def all_cases(tier, seed):
             else:
                 cfg = smtp_cfg(drop=sorted(x for x in DEFAULT_EXTS if rnd.random() < 0.3),
                                size=rnd.choice([None, None, 600, 5000, 1000000]), tls=rnd.random() < 0.25,
-                               auth=rnd.choice([None, None, ['PLAIN'], ['LOGIN'], ['CRAM-MD5'], ['LOGIN', 'PLAIN']]),
                                helo=rnd.random() < 0.08, reuse=rnd.random() < 0.3)
+                # PLAIN/LOGIN are refused 504 by the library's server on a clear channel (by design); a relay
+                # with credentials cannot use a server that offers no AUTH (HELO): neither is a hop failure
+                if not cfg['helo']:
+                    cfg['auth'] = rnd.choice([None, None, ['PLAIN'], ['LOGIN'], ['LOGIN', 'PLAIN'], ['CRAM-MD5']]
+                                             if cfg['tls'] else [None, None, None, ['CRAM-MD5']])
                 cfg['concurrent'] = cfg['reuse'] and rnd.random() < 0.4
                 if '8BITMIME' in cfg['drop'] or cfg['helo']:
                     cfg['encoder'] = rnd.choice([None, None, 'quopri', 'base64'])
@@ -738,10 +744,9 @@ def make_validator_class(lab):
                 reply.code, reply.message = s[1], '%s.1.8 scripted sender answer' % s[1][0]
 
         def handle_rcpt(self, reply, rcpt, params):
-            i = lab.rcpt_i
-            lab.rcpt_i += 1
+            # decided by address value (an index would shift when the server refuses a RCPT below the session)
             s = lab.script
-            if s and s[0] == 'rcpt' and i in s[1]:
+            if s and s[0] == 'rcpt' and rcpt in lab.reject:
                 reply.code, reply.message = s[2], '%s.1.1 scripted recipient answer' % s[2][0]
 
         def handle_data(self, reply):
@@ -762,6 +767,7 @@ class Lab(object):
     def __init__(self, cfg):
         self.cfg = cfg
         self.script = None
+        self.reject = ()       # recipient addresses a 'rcpt' script rejects
         self.msg_i = 0
         self.rcpt_i = 0
         self.records = []      # (msg_i, stage, code, ...)  edge side, per command callback
@@ -805,7 +811,7 @@ class SmtpLab(Lab):
         if cfg['tls']:
             kw['context'] = server_ctx()
         if cfg['auth']:
-            kw['auth'] = list(cfg['auth'])
+            kw['auth'] = [a.encode('ascii') for a in cfg['auth']]     # pysasl wants bytes names
         self.edge = SmtpEdge(None, self.capq, validator_class=make_validator_class(self), hostname='edge.test',
                              session_class=make_session_class(self), command_timeout=15, data_timeout=15, **kw)
         rk = {'socket_creator': self.creator, 'ehlo_as': 'relay.test', 'connect_timeout': 15, 'command_timeout': 15,
@@ -1067,9 +1073,10 @@ def check_converted(orig, got, encoder):
     dec = email.message_from_bytes(got).get_payload(decode=True)
     if dec is None:
         return 'converted message has no decodable payload'
-    if encoder == 'base64':
-        dec, bo = dec.replace(b'\r\n', b'\n'), bo.replace(b'\r\n', b'\n')
-    if dec.rstrip(b'\r\n') != bo.rstrip(b'\r\n'):
+    # "same text" = same sequence of lines: the conversion re-parses the message with universal newlines
+    # (exact line ends after conversion are C20's business and its known finding)
+    dec, bo = re.sub(br'\r\n|\r|\n', b'\n', dec), re.sub(br'\r\n|\r|\n', b'\n', bo)
+    if dec.rstrip(b'\n') != bo.rstrip(b'\n'):
         return 'decoded text differs'
     return None
 
@@ -1190,6 +1197,7 @@ def run_messages(case, lab, R):
     for k, (m, env, orig) in enumerate(prepared):
         lab.msg_i = k
         lab.script = m['script']
+        lab.reject = [m['rcpts'][i] for i in m['script'][1]] if m['script'] and m['script'][0] == 'rcpt' else ()
         R.eval()
         st, val = watchdog_call(lambda: attempt(lab.relay, env), WATCHDOG)
         out.append((m, env, orig, outcome_of(st, val)))
@@ -1351,18 +1359,18 @@ def judge_smtp_http(case, lab, R, runs):
         rec = got[delivered[0]]
         e2 = rec['env']
         want_rcpts = list(m['rcpts'])
-        if script and script[0] == 'rcpt':
-            want_rcpts = [r for i, r in enumerate(m['rcpts']) if i not in script[1]]
-        elif not concurrent and t == 'smtp':
-            # recipients the edge itself refused without a script (server-level 501 etc.): reported below, the
+        scripted = [m['rcpts'][i] for i in script[1]] if script and script[0] == 'rcpt' else []
+        want_rcpts = [r for r in want_rcpts if r not in scripted]
+        if t == 'smtp':
+            # recipients the edge itself refused without a script (server-level 501 etc.): reported here, the
             # list comparison then uses the addresses the relay reports as accepted
-            bad = [r for r in distinct if reported[r][0] == 'fail']
+            bad = [r for r in distinct if reported[r][0] == 'fail' and r not in scripted]
             for r in bad:
                 R.hit('valid-hop-refused')
                 R.violation(address_mechanism(t, r, reported[r][1], 'RCPT'),
                             '%s: valid recipient %r refused %s by the edge (no script)' % (t, r, reported[r][1]),
                             J.wit(m, refused=r, outcome=describe_outcome(o), edge_records=recs))
-            want_rcpts = [r for r in m['rcpts'] if r not in bad]
+            want_rcpts = [r for r in want_rcpts if r not in bad]
         try:
             content = b''.join(e2.flatten())
         except Exception:
@@ -1373,7 +1381,7 @@ def judge_smtp_http(case, lab, R, runs):
         J.compare(m, orig, e2.sender, list(e2.recipients), content, want_rcpts, cond)
         if t == 'smtp' and cfg.get('auth'):
             R.hit('auth-hop')
-            if e2.client.get('auth') != (USER, None) and e2.client.get('auth') != (USER, ''):
+            if not e2.client.get('auth') or e2.client['auth'][0] != USER:
                 R.violation('unclassified/smtp/auth/identity-differs',
                             'smtp: edge recorded auth=%r, relay used %r' % (e2.client.get('auth'), USER), J.wit(m))
         if len(R.samples) < R.MAX_SAMPLES and nt and (case['n'] % 5 == 0):
@@ -1464,6 +1472,18 @@ def judge_lmtp(case, lab, R, runs):
     for tx in txns:
         by_marker.setdefault(tx.get('marker'), []).append(tx)
     cmds = [(c.n, v, l) for c in lab.ds.conns for v, l in c.commands]
+    # RCPT lines of each transaction: the k-th MAIL command of a connection opened its k-th transaction
+    rcpt_lines = {}
+    for c in lab.ds.conns:
+        k, cur = -1, None
+        for v, l in c.commands:
+            if v == 'MAIL':
+                k += 1
+                cur = rcpt_lines.setdefault(id(c.txns[k]), []) if k < len(c.txns) else None
+            elif v == 'RCPT' and cur is not None:
+                cur.append(l)
+            elif v in ('DATA', 'RSET', 'QUIT', 'LHLO'):
+                cur = None
     for k, (m, env, orig, o) in enumerate(runs):
         nt, key = nontrivial_key(case, m, orig)
         if nt:
@@ -1517,16 +1537,7 @@ def judge_lmtp(case, lab, R, runs):
         # sender / recipients from the raw lines, parsed independently
         sp = parse_path(tx['raw_mail'])
         sender = sp[0].decode('utf-8', 'replace') if sp else None
-        # RCPT lines of this transaction: the RCPT commands between this MAIL and the next DATA
-        lines = [l for _, _, l in cmds]
-        at = lines.index(tx['raw_mail']) if tx['raw_mail'] in lines else -1
-        rl = []
-        for l in lines[at + 1:]:
-            v = l.split(b' ', 1)[0].strip().upper()
-            if v == b'RCPT':
-                rl.append(l)
-            elif v in (b'DATA', b'MAIL', b'RSET', b'QUIT'):
-                break
+        rl = rcpt_lines.get(id(tx), [])
         rc = []
         for l in rl:
             p = parse_path(l)
